@@ -155,6 +155,22 @@ PROPS = {
                      "call (caller arrays, original_*) is written in place; restore_original re-establishes the state of a new object."),
         assumptions=[A_REAL, A_NOALIAS],
     ),
+    'C18': dict(
+        functions=[M + 'datasets._base.load_dataset', M + 'datasets._base.get_data_home'],
+        driver='datasets',
+        level='proof',
+        explanation=("Finite configuration space enumerated completely: the four shipped description tables are parsed on every run "
+                     "(95 names) and load_dataset is executed symbolically for every name, its '-'/'_' spelling variants and both "
+                     "values of the unpack flag against the contracts of the two generic loading routines; the recorded calls give "
+                     "url / checksum / remote file / cache slot per dataset and the distinctness obligations are decided over them. "
+                     "For a symbolic name: ValueError iff the derived loader name is not bound in the aggregation module (z3 strings). "
+                     "get_data_home returns $TRAFFIC_WEAVER_DATA when set. The 19 bundled files are checked by exhaustive native "
+                     "evaluation of the run-time contract (finite (k,2) float array, strictly increasing first column, unpack = columns) - "
+                     "evaluation, not proof."),
+        assumptions=["the two generic loading routines are represented by their contracts (verified separately: C19)",
+                     "process environment is a fixed map during a call; os.path.join on relative components",
+                     "content of the bundled CSV files: checked by evaluation on every run (exhaustive, 19 files)"],
+    ),
     'C20': dict(
         functions=[WV + m for m in ('__init__', 'from_2d_array', 'slice_by_index', 'slice_by_value', 'interpolate', 'truncate_by_index',
                                     'truncate_by_value')] + [PR + 'truncate', PR + 'interpolate', SAU + 'integral',
